@@ -15,7 +15,7 @@ from sa import ir, cfg, logic, facts, valueflow, regexlang
 from sa.ir import fmt, walk, short
 from sa.logic import Not, And, Or
 from sa.callgraph import tree_effects, lvalue_root
-from .common import NS, KINDS, PARSE_VEC, callgraph, one, elem_calls, literal_value, class_fields
+from .common import NS, KINDS, PARSE_VEC, callgraph, one, elem_calls, literal_value, class_fields, bodies_of
 
 UI = NS + "user_input"
 FIRST_OCC = ("find", "find_first_of")
@@ -178,7 +178,7 @@ def run(ctx):
         ctx.need("R02.2", "list modifications on the parse path", nlist, 2)
 
     # ---- R02.3
-    tpos = [f for f in prog.find(NS + "parser::try_parse_as_option") if f.has_cfg]
+    tpos = bodies_of(prog, NS + "parser::try_parse_as_option")
     ctx.need("R02.3", "try_parse_as_option instantiations", len(tpos), 2)
     for f in tpos:
         IN, before = fe.analyse(f)
